@@ -20,6 +20,7 @@ type FileWriter struct {
 	blockCount uint64
 	entryCount uint64
 	closed     bool
+	dirtyTail  bool   // a failed block could not be cut off yet (see flushLocked)
 	swampName  string // Swamp name for V3 format (written after header)
 }
 
@@ -269,8 +270,20 @@ func (fw *FileWriter) Flush() error {
 
 // flushLocked writes the buffer to disk (must be called with lock held)
 func (fw *FileWriter) flushLocked() error {
-	header, compressed, err := fw.buffer.Flush()
+	start, err := fw.file.Seek(0, io.SeekCurrent)
 	if err != nil {
+		return err
+	}
+	if fw.dirtyTail { // an earlier rollback could not cut its partial block off: do it now
+		if err := fw.file.Truncate(start); err != nil {
+			return err
+		}
+		fw.dirtyTail = false
+	}
+	entries := fw.buffer.GetEntriesAndClear()
+	header, compressed, err := CompressEntries(entries)
+	if err != nil {
+		fw.buffer.Restore(entries)
 		return err
 	}
 
@@ -278,14 +291,23 @@ func (fw *FileWriter) flushLocked() error {
 		return nil // Nothing to flush
 	}
 
+	// A block that is not entirely on disk would hide every block appended after it:
+	// on a failed write cut it off again, go back, and keep the entries for the next flush.
+	rollback := func(werr error) error {
+		fw.dirtyTail = fw.file.Truncate(start) != nil
+		_, _ = fw.file.Seek(start, io.SeekStart)
+		fw.buffer.Restore(entries)
+		return werr
+	}
+
 	// Write block header
 	if _, err := fw.file.Write(header.Serialize()); err != nil {
-		return err
+		return rollback(err)
 	}
 
 	// Write compressed data
 	if _, err := fw.file.Write(compressed); err != nil {
-		return err
+		return rollback(err)
 	}
 
 	// Update in-memory counts
